@@ -7,6 +7,14 @@ NOTE = ("Trusted: Coq 8.16.1 kernel and vm_compute (no native_compute); no axiom
         "context'); the go2v translator; the Go harness/oracle; Go toolchain and third-party libraries. See DESIGN.md section 7.")
 SOURCE_COMMITS = []  # hook commits in /repo (none so far: the harness uses the public API only)
 CLAIMED = {
+ "C01": dict(ref="5 C01", technique="Rocq/Coq proof by symbolic execution of the statement sequence go2v extracts from login.go + history induction + in-Coq correspondence over storage histories",
+   text="callback_table (the complete decision table of callbackHandleFunc/loginResponse, for all requests and storage answers) is re-proved on the extracted sequence on every run; "
+        "C01_success_only_if_done, _no_userinfo_before_done, _no_panic follow; C01_histories is an induction over arbitrary operation lists. Generated histories (1-5 sessions, faults, "
+        "id placements) run against the real handler, decoded with a generic XML walk, checked by an oracle and compared field by field with the model."),
+ "C03": dict(ref="5 C03", technique="Rocq/Coq proof (decision table + codec round-trip theorems) + field-level in-Coq correspondence",
+   text="C03_fields: every field of a Success reply is a function of the stored request, the user record and the registered entity ID (all inputs); C03_attributes characterises the attribute "
+        "statement; C03_wire_* are the XML / query / HTML-attribute round trips. The harness compares InResponseTo (both places), Destination, Recipient, Issuer, Audience, NameID, the attribute "
+        "statement and RelayState of real replies with the storage record, and ID freshness/format; instants are bracketed by the harness, not modelled."),
  "C02": dict(ref="5 C02", technique="Rocq/Coq proof (canonical-target invariant over the extracted chain) + in-Coq correspondence",
    text="C02_sso_reply_target / _target_registered / _persisted_pair / _target_function: for every chain and every request, any URL-delivered reply and the persisted pair are "
         "the (Location, Binding) of one ACS entry registered for the SP storage returned for the Issuer; independent Go oracle on form action / Location / Destination / CreateAuthRequest arguments. "
